@@ -94,7 +94,8 @@ namespace Givaro
     inline typename MOD::Element& MOD::div
     (Element& r, const Element& a, const Element& b) const
     {
-        return mulin( inv(r,b), a );
+        Element ib;
+        return mul(r, a, inv(ib, b));
     }
 
     template<typename E, typename C>
